@@ -183,7 +183,62 @@ template<int D> void do_op(view_t<D>& dv, view_t<D>* twin, std::string const& ki
 	os << ",\"sink\":"; jlist(os, sink);
 }
 
+// destination and source are two views of ONE allocation whose addresses interleave (element k of the destination root
+// and element k of the source root are neighbours in memory): disjoint elements, overlapping address hulls
+template<int D> void run_interleaved(long id, view_program const& p) {
+	std::ostringstream os;
+	os << "{\"id\":" << id;
+	if constexpr(D >= 4) { os << ",\"st\":\"unsupported\",\"why\":\"interleaved D>=4\"}\n"; std::cout << os.str() << std::flush; return; }
+	else {
+	std::vector<long> sz(p.sizes); sz.push_back(2);
+	std::vector<long> fi(p.firsts); fi.push_back(0);
+	multi::array<T, D + 1> big(make_ext<D + 1>(sz, fi, std::make_index_sequence<D + 1>{}), mk(SENT));
+	view_t<D> rootA = norm(big.unrotated()[0]);
+	view_t<D> rootB = norm(big.unrotated()[1]);
+	{ long c = 0; for(auto& e : rootA.elements()) { e = mk(c++); } }
+	{ long c = 0; for(auto& e : rootB.elements()) { e = mk(5000 + (c++)); } }
+	any_view curA, curB;
+	put<D>(curA, view_t<D>(rootA.layout(), unconst(rootA.base())));
+	put<D>(curB, view_t<D>(rootB.layout(), unconst(rootB.base())));
+	std::string stA, stB;
+	run_ops(curA, p.ops, stA);
+	run_ops(curB, p.ops, stB);
+	if(stA == "abort" || stB == "abort") { os << ",\"st\":\"abort\",\"at\":\"view\",\"abort\":" << guard::last_json(); }
+	else if(stA != "ok" || stB != "ok") { os << ",\"st\":\"unsupported\",\"why\":\"" << stA << "\""; }
+	else {
+		std::string why; bool fin = true;
+		std::vector<long> src_after;
+		try {
+			fin = guard::run([&] {
+				std::visit([&](auto& dv) {
+					using V = std::decay_t<decltype(dv)>;
+					if constexpr(std::is_same_v<V, std::monostate> || std::is_same_v<V, elem0>) { throw unsupported{"element"}; }
+					else {
+						auto* sv = std::get_if<V>(&curB);
+						if(sv == nullptr) { throw unsupported{"shape"}; }
+						{ long k = 0; fill_canon(*sv, 1000, k); }
+						dv = *sv;
+						read_canon(*sv, src_after);
+					}
+				}, curA);
+			});
+		} catch(unsupported const& u) { why = u.why; }
+		if(!why.empty()) { os << ",\"st\":\"unsupported\",\"why\":\"" << why << "\""; }
+		else if(!fin) { os << ",\"st\":\"abort\",\"at\":\"op\",\"abort\":" << guard::last_json(); }
+		else {
+			std::vector<long> store; for(auto const& e : rootA.elements()) { store.push_back(val_of(e)); }
+			os << ",\"st\":\"ok\",\"src\":"; jlist(os, src_after); os << ",\"sink\":[]";
+			os << ",\"store\":"; jlist(os, store);
+			os << ",\"guards_ok\":true,\"twin_frame_ok\":true,\"root_ok\":true";
+		}
+	}
+	os << "}\n";
+	std::cout << os.str() << std::flush;
+	}
+}
+
 template<int D> void run_case(long id, view_program const& p, std::string const& kind) {
+	if(kind == "assign_interleaved") { run_interleaved<D>(id, p); return; }
 	long n = 1; for(auto s : p.sizes) { n *= s; }
 	std::vector<T> buf(static_cast<std::size_t>(n + 2 * GUARD), mk(SENT));
 	multi::array_ref<T, D> root(buf.data() + GUARD, make_ext<D>(p.sizes, p.firsts, std::make_index_sequence<D>{}));
